@@ -284,8 +284,15 @@ func TestC17(t *testing.T) {
 				if rapid.IntRange(0, 2).Draw(rt, "reallyToggle") != 0 {
 					rt.Skip("toggle rarely")
 				}
-				f := rapid.SampledFrom([]string{"none", "none", "internal_server", "deprecated"}).Draw(rt, "failure")
-				step(model.Op{Kind: "SetFailure", Failure: f})
+				f := rapid.SampledFrom([]string{"none", "none", "internal_server", "deprecated", "via-active", "via-deactive", "via-deactive"}).Draw(rt, "failure")
+				switch f {
+				case "via-active":
+					step(model.Op{Kind: "SetFailure", Via: "active"})
+				case "via-deactive":
+					step(model.Op{Kind: "SetFailure", Via: "deactive"})
+				default:
+					step(model.Op{Kind: "SetFailure", Failure: f})
+				}
 			},
 			"clear": func(rt *rapid.T) {
 				if rapid.IntRange(0, 5).Draw(rt, "reallyClear") != 0 {
@@ -569,9 +576,16 @@ func TestC18(t *testing.T) {
 				ix := model.IndexSchema{Name: rapid.SampledFrom([]string{"late1", "late2", "idx1"}).Draw(rt, "ixName"), Global: true,
 					Hash: rapid.SampledFrom([]string{"g1", "g2", "r1"}).Draw(rt, "ixHash")}
 				attrs := map[string]string{ix.Hash: "S"}
+				if rapid.IntRange(0, 2).Draw(rt, "ixWithRange") == 1 {
+					// a composite key: stored items may hold one of the two attributes only
+					ix.Range = rapid.SampledFrom([]string{"g1", "g2", "r1", "r2"}).Filter(func(a string) bool { return a != ix.Hash }).Draw(rt, "ixRange")
+					attrs[ix.Range] = "S"
+				}
 				if t != nil {
-					if ty, ok := t.Schema.Attrs[ix.Hash]; ok {
-						attrs[ix.Hash] = ty
+					for _, a := range []string{ix.Hash, ix.Range} {
+						if ty, ok := t.Schema.Attrs[a]; ok && a != "" {
+							attrs[a] = ty
+						}
 					}
 					if rapid.IntRange(0, 3).Draw(rt, "ixNoThroughput") == 0 {
 						ix.NoThroughput = true
@@ -741,7 +755,7 @@ func init() {
 	}
 }
 
-const ruleC19 = "rapid: a state built by a short history (Put, UpdateItem, DeleteItem, BatchGetItem, ClearTable) on 1-3 tables (0-2 indexes each), then one BatchWriteItem (1-25 requests, mixed puts and deletes, several tables, keys present and absent; batches above 20 requests generated with fixed weight; in a fifth of the cases a key may be named twice - DynamoDB rejects those, an implementation that accepts one is compared with the individual requests in the order given) or one BatchGetItem (1-15 present and absent keys per table, several tables, sometimes filled up to 60 / 99 / exactly 100 keys, the service limit). In a third of the cases the same request object is sent twice (the retry a caller performs; puts and deletes are idempotent) and the second response is the one compared. Oracle: twin-client differential - one pair of clients executes the batch, a second pair the same requests as individual PutItem / DeleteItem calls; the canonical internal dumps (tables and every index) must be equal, the reference model agrees with both, UnprocessedItems is empty; BatchGetItem responses equal, per table, the multiset of individual GetItem results for keys that exist, and (unless the open finding F-BGUNPROC applies) absent keys are not reported as unprocessed. Non-trivial = batch over >= 2 tables, or with a delete of a present key, or a BatchGet with an absent key; distinct = hash of (setup, batch)."
+const ruleC19 = "rapid: a state built by a short history (Put, UpdateItem, DeleteItem, BatchGetItem, ClearTable) on 1-3 tables (0-2 indexes each), then one BatchWriteItem (1-25 requests, mixed puts and deletes, several tables, keys present and absent; batches above 20 requests generated with fixed weight; in a fifth of the cases a key may be named twice - DynamoDB rejects those, an implementation that accepts one is compared with the individual requests in the order given) or one BatchGetItem (1-15 present and absent keys per table, several tables, some with a projection and name placeholders of their own, sometimes filled up to 60 / 99 / exactly 100 keys, the service limit). In a third of the cases the same request object is sent twice (the retry a caller performs; puts and deletes are idempotent) and the second response is the one compared. Oracle: twin-client differential - one pair of clients executes the batch, a second pair the same requests as individual PutItem / DeleteItem calls; the canonical internal dumps (tables and every index) must be equal, the reference model agrees with both, UnprocessedItems is empty; BatchGetItem responses equal, per table, the multiset of individual GetItem results for keys that exist, and (unless the open finding F-BGUNPROC applies) absent keys are not reported as unprocessed. Non-trivial = batch over >= 2 tables, or with a delete of a present key, or a BatchGet with an absent key; distinct = hash of (setup, batch)."
 
 // TestC19 decides property C19.
 func TestC19(t *testing.T) {
@@ -809,6 +823,10 @@ func TestC19(t *testing.T) {
 							absentGet = true
 						}
 					}
+				}
+				if rapid.IntRange(0, 2).Draw(rt, "bgProjection") == 1 {
+					// a projection with a name placeholder of its own (every name is used)
+					tb.Projection, tb.Names = "#p, "+g.s.Hash, map[string]string{"#p": "a"}
 				}
 				op.Batch = append(op.Batch, tb)
 			}
